@@ -49,4 +49,9 @@ def Op.requeues (k : Nat) : Op → Bool
   | _ => false
 
 
+/-- everything `Entitled` and "blocked for uploads" depend on: friends, block list, the shared
+directories (alias, share mode, users) and the indexed items -/
+def entitlementInputs (s : S) : List Name × List (Name × Nat) × List DirInfo × List SItem :=
+  (s.cfg.friends, s.cfg.blocked, s.cfg.dirs, s.sh.items)
+
 end AioslskVerif.Entitle
